@@ -83,7 +83,7 @@ func primary(f gallina.Flags) {
 		progs = append(progs, c.p)
 		corpusName = append(corpusName, c.name)
 	}
-	n := f.Count(330, 12000)
+	n := f.Count(80, 5000)
 	for i := 0; i < n; i++ {
 		progs = append(progs, genProg(f.Seed, i, f.Tier))
 		corpusName = append(corpusName, "")
@@ -146,7 +146,7 @@ func primary(f gallina.Flags) {
 	}
 
 	// ---- cases
-	const perShard = 48
+	const perShard = 47
 	cf := &gallina.CaseFile{Dir: f.Out, Type: "case", PerShard: 0, Footer: gallina.StdFooter}
 	pool := newPool()
 	inShard := 0
